@@ -54,7 +54,8 @@ pub struct Case {
     pub corrupt: Option<crate::corrupt::CorruptSpec>,
 }
 
-#[derive(Default, Clone, Debug, Serialize)]
+#[derive(Default, Clone, Debug, Serialize, Deserialize)]
+#[serde(default)]
 pub struct RunStats {
     pub ops: u64,
     pub gets: u64,
@@ -208,7 +209,7 @@ impl RunOutput {
 
 pub type Shared = Arc<Mutex<RunOutput>>;
 
-#[derive(Clone, Debug)]
+#[derive(Clone, Debug, Serialize, Deserialize)]
 pub struct CaseResult {
     pub findings: Vec<Finding>,
     pub stats: RunStats,
